@@ -388,6 +388,12 @@ def judge_fault(ctx, st, c, entry, r, cov):
     wit = {'kind': c['kind'], 'variant': c['variant'], 'entry': entry, 'frame': c['frame'], 'chain': c['chain'],
            'ancestors': c['ancestors'], 'tree': c['fault'], 'betas': c['betas'], 'rows': c['rows'], 'panel': c['panel'],
            'mention': c['mention']}
+    if entry == 'biogeme_multi':
+        m = c['multi']
+        key = f'C12/faults/{c["kind"]}/biogeme_multi-{m["where"]}/{c["frame"]}'
+        wit['trees'] = m['trees']['fault']
+        wit['specification'] = {'formulas': m['names'], 'faulty_formula': m['names'][m['position']], 'position': m['position'],
+                                'of': m['n'], 'other_formulas': 'b*x1, x2+0.5, exp(0.5*x3) (valid)'}
     how = 'lib/impl/c12_faults.py with {"cases": [{"mode": "formula", "tree": witness.tree, ...}]} or ./check C12 --replay'
     if 'crash' in r:
         ctx.violation(key, f'planted fault ({c["kind"]}): the process died instead of refusing the specification', wit,
@@ -418,7 +424,7 @@ def judge_twin(ctx, c, entry, r):
         return 'bad'
     if r.get('status') == 'accepted':
         return 'ok'
-    if r.get('engine') and entry in ('gvc', 'gvd', 'biogeme_weight'):
+    if r.get('engine') and (entry in ('gvc', 'gvd', 'biogeme_weight') or (entry == 'biogeme_multi' and c['multi']['names'][c['multi']['position']] == 'weight')):
         return 'numeric'          # a numerical failure of the evaluation, not a refusal of the specification
     ctx.violation(key, f'a specification without fault is rejected by {entry} ({r.get("exc")})', wit, 'accepted', r)
     return 'bad'
@@ -428,7 +434,7 @@ def stream_faults(ctx):
     st = ctx.stream('faults', 'valid random formula (gen_expr) + one planted fault (missing column, draws / random variable / '
                     'variable outside its operator, duplicate name, logit keys / choice) at the hole of a frame drawn uniformly '
                     'over (operator kind x child slot), nested in 0-2 more frames and embedded at a random node; real entry points '
-                    'BIOGEME(...), BIOGEME({..}), get_value_c, get_value_and_derivatives; oracle: BiogemeError naming the '
+                    'BIOGEME(...), BIOGEME({..}), BIOGEME({2-4 formulas, the faulty one first / middle / last}), get_value_c, get_value_and_derivatives; oracle: BiogemeError naming the '
                     'element, nothing produced; the fault-free twin is accepted; non-trivial = fault case whose hole is at '
                     'depth >= 2; distinct by (tree, entry)')
     sm = ctx.stream('methods', 'the same formulas: audit(db) error list, check_draws / check_rv / check_panel_trajectory sets of '
@@ -448,6 +454,7 @@ def stream_faults(ctx):
             k = kinds[(rnd + 3 * FRAMES.index(target) + ctx.seed) % len(kinds)]
             cases.append(gen_fault_case(rng, k, target, rng.choice([2, 3, 4])))
     items, meta = [], []
+    multi_cov = {}
     for ci, c in enumerate(cases):
         es = c.get('entries') or entries_for(rng, c)
         for which in ('fault', 'twin'):
@@ -455,6 +462,32 @@ def stream_faults(ctx):
                 items.append({'mode': 'formula', 'tree': c[which], 'betas': c['betas'], 'rows': c['rows'], 'panel': c['panel'],
                               'entry': e, 'ndraws': 5})
                 meta.append((ci, which, e))
+        # the same fault inside a specification with 2-4 formulas, in each position of the dictionary
+        if not c['panel'] and c['kind'] != 'var-outside-trajectory':
+            n = 2 + ci % 3
+            p = (ci // 3 + ctx.seed) % n
+            others = [N(['Bin', 'Times'], [N(['Beta', 'bfr', False]), N(['Var', 'x1'])]),
+                      N(['Bin', 'Plus'], [N(['Var', 'x2']), HALF]),
+                      N(['Un', 'Exp'], [N(['Bin', 'Times'], [HALF, N(['Var', 'x3'])])])]
+            names = ['log_like', 's1', 's2', 's3'][:n]
+            if ci % 2 and n >= 2:
+                names[-1] = 'weight'
+            where = 'first' if p == 0 else ('last' if p == n - 1 else 'middle')
+            c['multi'] = {'n': n, 'position': p, 'where': where, 'names': names}
+            for which in ('fault', 'twin'):
+                trees, o = [], 0
+                for i, nm in enumerate(names):
+                    if i == p:
+                        trees.append([nm, c[which]])
+                    else:
+                        trees.append([nm, others[o]])
+                        o += 1
+                c['multi'].setdefault('trees', {})[which] = trees
+                items.append({'mode': 'formula', 'trees': trees, 'betas': c['betas'], 'rows': c['rows'], 'panel': False,
+                              'entry': 'biogeme_multi', 'ndraws': 5})
+                meta.append((ci, which, 'biogeme_multi'))
+            mk = f'{where}|{c["kind"]}'
+            multi_cov[mk] = multi_cov.get(mk, 0) + 1
     res = ctx.impl_cases('c12_faults.py', items, chunk=30, timeout=1200)
     cov = {}
     twin_stats = {'ok': 0, 'numeric': 0, 'bad': 0}
@@ -478,6 +511,10 @@ def stream_faults(ctx):
     frames_hit = {}
     for ck, n in cov.items():
         frames_hit[ck.split('|')[0]] = frames_hit.get(ck.split('|')[0], 0) + n
+    st.extra['coverage_dict_position_x_fault'] = multi_cov
+    for where in ('first', 'middle', 'last'):
+        if not any(k.startswith(where + '|') for k in multi_cov):
+            ctx.stream_broken('faults', f'coverage floor: no fault planted in the {where} formula of a dictionary specification')
     st.extra.update({'coverage_frame_x_fault': cov, 'frames_hit': len(frames_hit), 'frames_total': len(FRAMES),
                      'twins': twin_stats,
                      'ancestor_kinds': sorted({a for c in cases for a in c['ancestors']})})
@@ -586,7 +623,7 @@ def stream_other(ctx):
     st = ctx.stream('faults_other', 'second derivatives without first ones on valid formulas; Database(...) on frames with one faulty '
                     'column (strings, mixed objects, pandas extension types, dates, NaN / None / <NA>, no row, emptied after '
                     'construction) at a random column / row position vs Model/Audit.v data_audit; models.lognested / nested / '
-                    'logcnl / cnl / *_mev_mu with overlapping nests or nests leaving the choice set (both syntaxes) vs nested_ok / '
+                    'logcnl / cnl / *_mev_mu with 2-5 nests, an alternative shared by the nests at EVERY ordered pair of positions or a foreign alternative at every position (both syntaxes) vs nested_ok / cnl_ok; histories: a NaN / string column / emptied table entering the current table after a first BIOGEME object, panel(), remove(), add_column(), scale_column(), then a second BIOGEME(...) / get_value_c; '
                     'cnl_ok; each with its fault-free twin; non-trivial = a planted fault')
     rng = ctx.sub_rng('other')
     items, meta = [], []
@@ -621,43 +658,75 @@ def stream_other(ctx):
                   'get_mev_for_nested_mu']
     cnl_fns = ['logcnl', 'cnl', 'logcnlmu', 'cnlmu', 'get_mev_for_cross_nested', 'get_mev_for_cross_nested_mu']
     rows = [{'x1': 0.5, 'av1': 1.0, 'kk': 1.0}, {'x1': 1.5, 'av1': 0.0, 'kk': 3.0}]
-    for rep in range(ctx.n(3, 12)):
-        for fn in nested_fns + cnl_fns:
-            for fault in ('overlap', 'outside', None):
-                n_alt = rng.randint(3, 6)
-                alts = rng.sample([1, 2, 3, 4, 5, 6, 8, 11], n_alt)
-                if 1 not in alts:
-                    alts[0] = 1
-                if 3 not in alts:
-                    alts[1 if alts[0] == 1 else 0] = 3
-                rng.shuffle(alts)
-                k = rng.randint(1, min(3, n_alt - 1))
-                pool = list(alts)
-                rng.shuffle(pool)
-                cut = sorted(rng.sample(range(1, len(pool)), k - 1)) if k > 1 else []
-                parts = [pool[a:b] for a, b in zip([0] + cut, cut + [len(pool)])]
-                if rng.random() < 0.5 and len(parts[-1]) > 1:
-                    parts[-1] = parts[-1][:-1]                      # one alternative alone (allowed)
-                mention = None
-                if fault == 'overlap':
-                    if len(parts) < 2:
-                        parts.append([parts[0][0]])
-                        mention = str(parts[0][0])
-                    else:
-                        i, j = rng.sample(range(len(parts)), 2)
+
+    def partition(k):
+        """k disjoint nests over 2k..2k+2 alternatives (1 and 3 among them), possibly one alternative alone"""
+        n_alt = rng.randint(max(k + 1, 4), min(2 * k + 2, 9))
+        alts = [1, 3] + rng.sample([2, 4, 5, 6, 8, 11, 12], n_alt - 2)
+        rng.shuffle(alts)
+        pool = list(alts)
+        cut = sorted(rng.sample(range(1, len(pool)), k - 1))
+        parts = [pool[a_:b_] for a_, b_ in zip([0] + cut, cut + [len(pool)])]
+        if rng.random() < 0.4:
+            big = max(range(k), key=lambda i: len(parts[i]))
+            if len(parts[big]) > 1:
+                parts[big] = parts[big][:-1]                # one alternative alone (allowed)
+        return alts, parts
+
+    def nest_item(fn, alts, parts, fault, mention, pair):
+        it = {'mode': 'nests', 'func': fn, 'choice_set': list(alts), 'util_keys': list(alts), 'nests': [list(p) for p in parts],
+              'old_syntax': rng.random() < 0.5, 'avail': rng.random() < 0.5, 'rows': rows,
+              'evaluate': fault is None and fn in ('lognested', 'logcnl', 'nested', 'cnl')}
+        items.append(it)
+        meta.append(('nests', (fn, fault, mention, fn in cnl_fns, pair), it))
+
+    fns = nested_fns + cnl_fns
+    fi = 0
+    for rep in range(ctx.n(1, 4)):
+        for k in (2, 3, 4, 5):
+            # an alternative shared by the nests at positions (i, j), for EVERY pair of positions, in both directions
+            for i in range(k):
+                for j in range(k):
+                    if i == j:
+                        continue
+                    fn_n = nested_fns[fi % len(nested_fns)]
+                    fn_c = cnl_fns[fi % len(cnl_fns)]
+                    fi += 1
+                    for fn in (fn_n, fn_c):
+                        alts, parts = partition(k)
                         x = rng.choice(parts[i])
-                        parts[j] = parts[j] + [x]
-                        mention = str(x)
-                elif fault == 'outside':
+                        parts[j].insert(rng.randrange(len(parts[j]) + 1), x)
+                        nest_item(fn, alts, parts, 'overlap', str(x), f'{k}:{i}-{j}')
+            # an alternative outside the choice set in the nest at EVERY position
+            for i in range(k):
+                for fn in (nested_fns[fi % len(nested_fns)], cnl_fns[fi % len(cnl_fns)]):
+                    alts, parts = partition(k)
                     x = rng.choice([13, 17, 0, -2])
-                    i = rng.randrange(len(parts))
                     parts[i].insert(rng.randrange(len(parts[i]) + 1), x)
-                    mention = str(x)
-                it = {'mode': 'nests', 'func': fn, 'choice_set': list(alts), 'util_keys': list(alts), 'nests': parts,
-                      'old_syntax': rng.random() < 0.4, 'avail': rng.random() < 0.5, 'rows': rows,
-                      'evaluate': fault is None and fn in ('lognested', 'logcnl', 'nested', 'cnl')}
-                items.append(it)
-                meta.append(('nests', (fn, fault, mention, fn in cnl_fns), it))
+                    nest_item(fn, alts, parts, 'outside', str(x), f'{k}:{i}')
+                fi += 1
+        for fn in fns:
+            for k in (1, 3, 5):
+                alts, parts = partition(k) if k > 1 else ([1, 3, 4], [[1, 3]])
+                nest_item(fn, alts, parts, None, None, f'{k}')
+    # ---- histories of a database: the fault enters the CURRENT table after other operations
+    histories = [[], ['first_biogeme'], ['first_biogeme_dict'], ['panel'], ['panel', 'first_biogeme'], ['remove_some'],
+                 ['add_column'], ['scale'], ['first_gvc'], ['first_biogeme', 'remove_some', 'add_column'],
+                 ['remove_some', 'panel'], ['add_column', 'first_biogeme', 'scale']]
+    injections = [('nan-cell', 'NaN'), ('nan-column', 'NaN'), ('str-column', 'sbad'), ('object-cell', 'sbad'), ('empty', 'no entry'),
+                  (None, None), ('good-column', None)]
+    hi = 0
+    for rep in range(ctx.n(1, 3)):
+        for steps in histories:
+            for inj, mention in injections:
+                for e in ('biogeme', 'biogeme_dict', 'gvc'):
+                    if ctx.quick and inj is not None and e == 'biogeme_dict' and (hi % 2):
+                        hi += 1
+                        continue
+                    hi += 1
+                    it = {'mode': 'history', 'steps': steps, 'inject': inj, 'entry': e, 'row': rng.randrange(5), 'nrows': rng.randint(4, 6)}
+                    items.append(it)
+                    meta.append(('history', (inj, mention), it))
     items += [c['item'] for c in load_corpus('other')]
     meta += [('corpus', c, c['item']) for c in load_corpus('other')]
     res = ctx.impl_cases('c12_faults.py', items, chunk=25, timeout=1200)
@@ -724,12 +793,48 @@ def stream_other(ctx):
             elif r.get('status') != 'accepted':
                 ctx.violation(f'C12/faults/valid-rejected/data/{e}', 'a valid database is refused', wit, 'accepted', r)
             continue
+        if what == 'history':
+            inj, mention = info
+            it = obj
+            e = it['entry']
+            st.record({'history': it['steps'], 'inject': inj, 'entry': e}, nontrivial=inj not in (None, 'good-column'))
+            hk = f'history:{"+".join(it["steps"]) or "none"}:{inj}:{e}'
+            cov[hk] = cov.get(hk, 0) + 1
+            wit = dict(it)
+            cls = {'nan-cell': 'data-nan', 'nan-column': 'data-nan', 'str-column': 'data-non-numeric', 'object-cell': 'data-non-numeric',
+                   'empty': 'data-empty'}.get(inj)
+            if cls is None:
+                if r.get('status') != 'accepted':
+                    ctx.violation(f'C12/faults/valid-rejected/history/{e}', 'a valid table is refused after a history of operations', wit,
+                                  'accepted', r if 'crash' not in r else r['crash'])
+                continue
+            # get_value_c does not audit the table (only emptiness): NaN / strings that entered the table later are not judged there
+            if e == 'gvc' and cls != 'data-empty':
+                st.extra.setdefault('unjudged_gvc_history', {}).setdefault(str(inj), {})
+                k2 = r.get('exc') or r.get('status')
+                st.extra['unjudged_gvc_history'][str(inj)][k2] = st.extra['unjudged_gvc_history'][str(inj)].get(k2, 0) + 1
+                continue
+            key = f'C12/faults/{cls}/history-{inj}/{e}'
+            what_h = f'{inj} entered the table after {it["steps"] or "its construction"}'
+            if 'crash' in r:
+                ctx.violation(key, f'{what_h}: the process dies', wit, 'BiogemeError', r['crash'])
+            elif r.get('status') == 'accepted':
+                ctx.violation(key, f'{what_h}: accepted by {e}, produces {json.dumps(r.get("after") or r.get("value"))[:100]}', wit,
+                              f'BiogemeError mentioning {mention}', r)
+            elif not r.get('biogeme'):
+                ctx.violation(key, f'{what_h}: surfaces as {r.get("exc")} in {e}', wit, f'BiogemeError mentioning {mention}', r)
+            elif mention not in (r.get('msg') or ''):
+                ctx.violation(key + '/message', f'{what_h}: the message does not mention {mention}', wit, mention, r)
+            continue
         if what == 'nests':
-            fn, fault, mention, cross = info
+            fn, fault, mention, cross, pair = info
             it = obj
             st.record({'nests': it['nests'], 'choice_set': it['choice_set'], 'func': fn, 'fault': fault}, nontrivial=fault is not None)
             cov[f'nests:{fn}:{fault}'] = cov.get(f'nests:{fn}:{fault}', 0) + 1
+            pk = f'nests-positions:{"cnl" if cross else "nested"}:{fault}:{pair}'
+            cov[pk] = cov.get(pk, 0) + 1
             wit = {k: it[k] for k in ('func', 'choice_set', 'nests', 'old_syntax', 'avail')}
+            wit['positions'] = pair
             should_refuse = fault == 'outside' or (fault == 'overlap' and not cross)
             key = f'C12/faults/nests-{fault}/{fn}' if should_refuse else f'C12/faults/valid-rejected/nests/{fn}'
             if should_refuse:
@@ -761,6 +866,10 @@ def stream_other(ctx):
             if not b:
                 st.disagree(light, 'model verdict (refused / accepted) differs', r)
     st.extra['coverage'] = cov
+    lack = [f'{k}:{i}-{j}' for k in (3, 4, 5) for i in range(k) for j in range(k) if i != j
+            and f'nests-positions:nested:overlap:{k}:{i}-{j}' not in cov]
+    if lack:
+        ctx.stream_broken('faults_other', f'coverage floor: nested-logit overlap never planted at the pairs of positions {lack[:6]}')
     if st.disagreements:
         ctx.stream_broken('faults_other', f'{len(st.disagreements)} disagreements; first: {json.dumps(st.disagreements[0], default=str)[:900]}')
 
@@ -988,6 +1097,8 @@ def replay(ctx, path):
     if 'tree' in wit and 'entry' in wit:
         it = {'mode': 'formula', 'tree': wit['tree'], 'betas': wit.get('betas', {}), 'rows': wit['rows'],
               'panel': wit.get('panel', False), 'entry': wit['entry'], 'ndraws': 5}
+        if 'trees' in wit:
+            it['trees'] = wit['trees']
         r = ctx.impl_cases('c12_faults.py', [it])[0]
         print(json.dumps({'observed_now': r, 'recorded': w.get('observed')}, default=str)[:2000])
         twin = str(wit.get('kind', '')).startswith('valid twin')
@@ -1000,7 +1111,7 @@ def replay(ctx, path):
         r = ctx.impl_cases('c12_missing.py', [it])[0]
         print(json.dumps({'observed_now': r, 'recorded': w.get('observed')}, default=str)[:2000])
         return 2
-    for mode_key, mode in (('frame', 'data'), ('nests', 'nests')):
+    for mode_key, mode in (('steps', 'history'), ('frame', 'data'), ('nests', 'nests')):
         if mode_key in wit:
             it = dict(wit)
             it['mode'] = mode
